@@ -117,6 +117,10 @@ func (p *Project) SourceFiles() map[string]string {
 		for i, v := range e.Values[:half] {
 			fmt.Fprintf(&a.body, "\t%sV%d %s = %s\n", e.Name, i, e.Name, v)
 		}
+		if e.AliasConst {
+			// a constant that repeats the value of the first one
+			fmt.Fprintf(&a.body, "\t%sDefault %s = %sV0\n", e.Name, e.Name, e.Name)
+		}
 		a.body.WriteString(")\n\n")
 		if half < len(e.Values) {
 			// the remaining constants of the same enum type live in another file of the package
@@ -169,19 +173,33 @@ func (p *Project) SourceFiles() map[string]string {
 		c := &p.Controllers[ci]
 		a := get(c.Pkg, c.File)
 		a.imports["github.com/gopher-fleece/runtime"] = true
+		// the controller's doc comment; with Grouped the declaration sits in a "type ( ... )" block that has a
+		// doc comment of its own, and the annotations are on the spec inside the block
+		var doc strings.Builder
 		if c.Desc != "" {
-			fmt.Fprintf(&a.body, "// @Description %s\n", c.Desc)
+			fmt.Fprintf(&doc, "// @Description %s\n", c.Desc)
 		}
 		if c.Tag != "" {
-			fmt.Fprintf(&a.body, "// @Tag(%s)\n", c.Tag)
+			fmt.Fprintf(&doc, "// @Tag(%s)\n", c.Tag)
 		}
 		if c.HasRoute {
-			fmt.Fprintf(&a.body, "// @Route(%s)\n", c.Route)
+			fmt.Fprintf(&doc, "// @Route(%s)\n", c.Route)
 		}
 		for _, s := range c.Security {
-			a.body.WriteString(securityLine(s))
+			doc.WriteString(securityLine(s))
 		}
-		fmt.Fprintf(&a.body, "type %s struct {\n\truntime.GleeceController\n}\n\n", c.Name)
+		if c.Grouped {
+			fmt.Fprintf(&a.body, "// The types of %s.\ntype (\n", c.Name)
+			for _, l := range strings.Split(strings.TrimSuffix(doc.String(), "\n"), "\n") {
+				if l != "" {
+					a.body.WriteString("\t" + l + "\n")
+				}
+			}
+			fmt.Fprintf(&a.body, "\t%s struct {\n\t\truntime.GleeceController\n\t}\n)\n\n", c.Name)
+		} else {
+			a.body.WriteString(doc.String())
+			fmt.Fprintf(&a.body, "type %s struct {\n\truntime.GleeceController\n}\n\n", c.Name)
+		}
 		for mi := range c.Methods {
 			m := &c.Methods[mi]
 			ma := get(c.Pkg, m.File)
